@@ -239,32 +239,34 @@ theorem parseDecimalL_range {cs : List Char} {x : Int} (h : parseDecimalL cs = .
   · rename_i ip fp _
     split at h
     · cases h
-    · rename_i i _
-      split at h
+    · split at h
       · cases h
-      · rename_i f hf
+      · rename_i i _
         split at h
         · cases h
-        · rename_i hlen
-          simp only [parseUintMax] at hf
-          split at hf
-          · rename_i had
+        · rename_i f hf
+          split at h
+          · cases h
+          · rename_i hlen
+            simp only [parseUintMax] at hf
             split at hf
+            · rename_i had
+              split at hf
+              · cases hf
+                simp only [allDigits, Bool.and_eq_true, Bool.not_eq_true', List.isEmpty_eq_false_iff] at had
+                have hlt := digitsVal_lt fp had.2
+                have hl1 : fp.length ≠ 0 := by
+                  intro h0; exact had.1 (List.length_eq_zero_iff.mp h0)
+                have hcases : fp.length = 1 ∨ fp.length = 2 ∨ fp.length = 3 ∨ fp.length = 4 := by omega
+                generalize digitsVal fp = f at *
+                have hb : ((f * 10 ^ (4 - fp.length) : Nat) : Int) ≤ 9999 := by
+                  rcases hcases with hl | hl | hl | hl <;> rw [hl] at hlt ⊢ <;>
+                    simp only [Nat.reduceSub, Nat.reducePow] at hlt ⊢ <;> omega
+                apply newDecimal_range h
+                · split <;> omega
+                · split <;> omega
+              · cases hf
             · cases hf
-              simp only [allDigits, Bool.and_eq_true, Bool.not_eq_true', List.isEmpty_eq_false_iff] at had
-              have hlt := digitsVal_lt fp had.2
-              have hl1 : fp.length ≠ 0 := by
-                intro h0; exact had.1 (List.length_eq_zero_iff.mp h0)
-              have hcases : fp.length = 1 ∨ fp.length = 2 ∨ fp.length = 3 ∨ fp.length = 4 := by omega
-              generalize digitsVal fp = f at *
-              have hb : ((f * 10 ^ (4 - fp.length) : Nat) : Int) ≤ 9999 := by
-                rcases hcases with hl | hl | hl | hl <;> rw [hl] at hlt ⊢ <;>
-                  simp only [Nat.reduceSub, Nat.reducePow] at hlt ⊢ <;> omega
-              apply newDecimal_range h
-              · split <;> omega
-              · split <;> omega
-            · cases hf
-          · cases hf
 
 theorem parseDecimal_range {s : String} {x : Int} (h : parseDecimal s = .ok x) : InI64 x := parseDecimalL_range h
 
@@ -277,7 +279,6 @@ theorem parseDatetimeL_range {cs : List Char} {x : Int} (h : parseDatetimeL cs =
   repeat' split at h
   all_goals first
     | (cases h; done)
-    | (cases h; exact wrap_inI64_r _)
     | (rename_i hr
        simp only [Bool.or_eq_true, decide_eq_true_eq, not_or] at hr
        cases h
@@ -289,10 +290,10 @@ theorem parseDatetime_range {s : String} {x : Int} (h : parseDatetime s = .ok x)
 theorem unitMillis_pos (i : Nat) : 0 < unitMillis i := by
   unfold unitMillis; split <;> decide
 
-theorem durLoop_range (cs : List Char) (u : Nat) (total value : Int) (hv : Bool) (r : Int)
-    (h : durLoop cs u total value hv = .ok r) (h0 : 0 ≤ total) (h1 : total ≤ maxI64) (h2 : 0 ≤ value) :
-    0 ≤ r ∧ r ≤ maxI64 := by
-  fun_induction durLoop cs u total value hv <;> simp_all
+theorem durLoop_range (lim : Int) (cs : List Char) (u : Nat) (total value : Int) (hv : Bool) (r : Int)
+    (h : durLoop lim cs u total value hv = .ok r) (h0 : 0 ≤ total) (h1 : total ≤ lim) (h2 : 0 ≤ value) :
+    0 ≤ r ∧ r ≤ lim := by
+  fun_induction durLoop lim cs u total value hv <;> simp_all
   case case6 ih =>
     rename_i digit _ _ _
     apply ih
@@ -312,15 +313,15 @@ theorem parseDurationL_range {cs : List Char} {x : Int} (h : parseDurationL cs =
   split at h
   · cases h
   · split at h
-    · cases hd : durLoop _ 0 0 0 false with
+    · cases hd : durLoop (maxI64 + 1) cs.tail 0 0 0 false with
       | error e => rw [hd] at h; cases h
       | ok r =>
         rw [hd] at h
-        have := durLoop_range _ _ _ _ _ _ hd (by decide) (by decide) (by decide)
+        have := durLoop_range _ _ _ _ _ _ _ hd (by decide) (by decide) (by decide)
         simp only [Except.map] at h
         cases h
         unfold InI64 minI64; unfold maxI64 at this ⊢; omega
-    · have := durLoop_range _ _ _ _ _ _ h (by decide) (by decide) (by decide)
+    · have := durLoop_range _ _ _ _ _ _ _ h (by decide) (by decide) (by decide)
       unfold InI64 minI64; unfold maxI64 at this ⊢; omega
 
 theorem parseDuration_range {s : String} {x : Int} (h : parseDuration s = .ok x) : InI64 x := parseDurationL_range h
